@@ -428,6 +428,28 @@ theorem add_sub_unit_invariance_density (s1 s2 : USpec) (f1 f2 : FUnit) (h1 : s1
   ⟨unit_invariance_density _ (fun k a b => (add_div a b k).symm) s1 s2 f1 f2 h1 h2 u m fill hdw,
    unit_invariance_density _ (fun k a b => (sub_div a b k).symm) s1 s2 f1 f2 h1 h2 u m fill hdw⟩
 
+/-- which grid points belong to an operand: the model's range test (with the guard band `tol`) is the test regenerated from
+`_intersect` (`Gen.intersectKeeps`: `(superset >= subset.min() - tol) & (superset <= subset.max() + tol)`), and the value there
+is the interpolant at the grid point clipped into the operand's range (`np.clip(commonwave[index], min, max)`, checked
+structurally by the generator), the fill value everywhere else — for every operand, range, tolerance and grid point -/
+theorem operand_membership_is_code (s : Spectrum) (lo hi tol fill g : ℚ) :
+    operandAt s lo hi tol fill g =
+      if Gen.intersectKeeps lo hi tol g then interpAt s.wave s.value fill fill (clip lo hi g) else fill := rfl
+
+/-- the regenerated `_intersect` test keeps exactly the closed range widened by the guard band on both sides -/
+theorem intersect_keeps_iff (lo hi tol w : ℚ) :
+    Gen.intersectKeeps lo hi tol w = true ↔ lo - tol ≤ w ∧ w ≤ hi + tol := by
+  simp [Gen.intersectKeeps]
+
+/-- … so both end points of an operand's own range are always kept (tol ≥ 0) and, with no guard band, nothing outside is -/
+theorem intersect_keeps_ends (lo hi tol : ℚ) (h : lo ≤ hi) (ht : 0 ≤ tol) :
+    Gen.intersectKeeps lo hi tol lo = true ∧ Gen.intersectKeeps lo hi tol hi = true ∧
+    ∀ w, Gen.intersectKeeps lo hi 0 w = true → lo ≤ w ∧ w ≤ hi := by
+  refine ⟨?_, ?_, ?_⟩
+  · rw [intersect_keeps_iff]; constructor <;> linarith
+  · rw [intersect_keeps_iff]; constructor <;> linarith
+  · intro w hw; rw [intersect_keeps_iff] at hw; constructor <;> linarith [hw.1, hw.2]
+
 /-- non-vacuity: nested ranges, fill 0 -/
 example : ufunc (· + ·) ⟨[1, 2, 3], [10, 20, 30]⟩ ⟨[2, 3, 4, 5], [1, 1, 1, 1]⟩ .min 0
     = .ok ⟨[1, 2, 3, 4, 5], [10, 21, 31, 1, 1]⟩ := by decide +kernel
